@@ -16,7 +16,9 @@ EXPLANATION = (
     "is dropped), the row counter and index advance consistently, only nonnegative cones are resized; (R3) the "
     "reversal fills kept rows from the internal iterate in order and dropped rows with (s=bound, z=0), x copied; "
     "(R4) the cap min(b, bound) is applied on every path of DefaultProblemData::new, independent of "
-    "presolve_enable; (R5) the presolver exists only if enabled and something was reduced.")
+    "presolve_enable; (R5) the presolver exists only if enabled and something was reduced; (R2, cone cursor) reduce_cones moves "
+    "its marker cursor past every cone on every path; (R7) select_rows gives every column - empty or not - its start pointer "
+    "and every kept entry its renumbered row, value and count.")
 ASSUMPTIONS = ['rustc MIR construction and trait resolution are correct',
                'CscMatrix::select_rows / select keep the order of the retained rows (C16 territory)']
 
@@ -332,6 +334,55 @@ def cone_cursor(rep, F, tag):
     R.guard(body)
 
 
+def row_selection(rep, F, tag):
+    """The presolver removes rows with CscMatrix::select_rows.  The reduced matrix is the original one with the dropped rows
+    deleted only if every column - empty or not - gets its start pointer: colptr[col] = running count is written on every
+    iteration of the column loop (a `continue` for an empty column leaves the zero of the allocation there and the previous
+    column's entries are attributed to it), and a kept entry writes its row index, its value and advances the count."""
+    R = rep.rule('C09.R7', 'select_rows: every column gets its start pointer, every kept entry its renumbered row, value and count')
+
+    def body():
+        f = F.one(name='select_rows', adt='CscMatrix')
+        loops = f.loops()
+        colp = []
+        for bi, si, st in f.assignments():
+            if st['p']['p']:
+                t = canon(f.sym_place(st['p']))
+                v = canon(f.sym_rvalue(st['rv']))
+                if re.search(r'\.colptr, next\(into_iter\(Range::Range\(0_usize, self\.n\)\)\)@Some\.0\)$', t) and v == 'var:ptrred':
+                    colp.append(bi)
+        R.check(len(colp) == 1, 'colptr-store' + tag, '%d stores of the running count into colptr[col] found' % len(colp), f.loc())
+        if len(colp) == 1:
+            S = colp[0]
+            outer = [h for h, body in loops.items() if S in body]
+            H = max(outer, key=lambda h: len(loops[h])) if outer else None
+            if H is None:
+                R.bad('column-loop' + tag, 'the colptr store is not inside a loop', f.loc())
+            else:
+                entries = [b for b in f.succ[H] if b in loops[H]]
+                bad = any(f.paths_exist_avoiding(e_, H, [S]) and e_ != S for e_ in entries)
+                R.check(not bad, 'colptr-every-column' + tag,
+                        'select_rows: an iteration of the column loop can complete without writing colptr[col] (e.g. a `continue` for an empty column): '
+                        'the column keeps the zero of the allocation and the previous column\'s kept entries move into it', f.loc())
+        # kept entries
+        kept = {'rowval': False, 'nzval': False, 'count': False}
+        for val, ret, ev, tr in Walker(f, cut_loops=True).leaves():
+            if ret[0] != 'cut':
+                continue
+            sel = [v for k, v in val.items() if k.startswith('index(arg2, index(self.rowval')]
+            if len(sel) == 1 and sel[0] == 1:
+                for e in ev:
+                    if e[0] == 'store' and '.rowval, var:ptrred)' in str(e[1]) and 'index(from_elem(0_usize, self.m), index(self.rowval' in str(e[2]):
+                        kept['rowval'] = True
+                    if e[0] == 'store' and '.nzval, var:ptrred)' in str(e[1]) and str(e[2]).startswith('index(self.nzval'):
+                        kept['nzval'] = True
+                    if e[0] == 'assign' and e[1] == 'ptrred' and isinstance(e[4], dict) and canon(f.sym_rvalue(e[4]['rv'])).replace('withoverflow', '').startswith('add(var:ptrred, 1_usize)'):
+                        kept['count'] = True
+        R.check(all(kept.values()), 'kept-entry' + tag, 'select_rows: a kept entry must store its renumbered row, its value and advance the count (%s)' % kept, f.loc())
+
+    R.guard(body)
+
+
 def run(ctx, rep, tier):
     for cfg in CONFIGS:
         F = ctx.facts(cfg)
@@ -340,6 +391,7 @@ def run(ctx, rep, tier):
         bound_capture(rep, F, E, tag)
         drop_condition(rep, F, tag)
         cone_cursor(rep, F, tag)
+        row_selection(rep, F, tag)
         reversal(rep, F, tag)
         cap_unconditional(rep, F, tag)
         presolver_gate(rep, F, tag)
